@@ -32,6 +32,7 @@ type c07World struct {
 	parts []string
 	warm  map[string]*ae.Session
 	suffix string
+	degraded []string // genuine operations that failed during set-up
 }
 
 func newC07World(spec PolicySpec, suffix string) *c07World {
@@ -68,8 +69,12 @@ func (cw *c07World) warmUp() {
 			s, _ = wf.GetSession(p)
 			cw.warm[p] = s
 		}
-		if out, err := s.Decrypt(ctx, *cloneDRR(cw.recs[i])); err != nil || !bytes.Equal(out, cw.pay[i]) {
-			panic(fmt.Sprintf("warm-up decrypt failed: %v", err))
+		var out []byte
+		var err error
+		if pan := safe(func() { out, err = s.Decrypt(ctx, *cloneDRR(cw.recs[i])) }); pan != "" || err != nil || !bytes.Equal(out, cw.pay[i]) {
+			// the SDK under test cannot decrypt a genuine record (not C07's business, C01 reports it): the mutation series
+			// still runs - a panic or wrong bytes on a mutated record remains a violation - but the run is marked
+			cw.degraded = append(cw.degraded, fmt.Sprintf("warm-up decrypt of genuine record %d failed: %v %s", i, err, pan))
 		}
 	}
 }
@@ -354,6 +359,9 @@ func CheckC07(r *Report) {
 		t0 := time.Now()
 		cw := newC07World(spec, wc.suffix)
 		cw.warmUp()
+		for _, d := range cw.degraded {
+			r.Vacuous = append(r.Vacuous, "C07/"+spec.Name+": "+d)
+		}
 		n := 0
 		cases := cw.recordCases(r.Thorough())
 		for _, c := range cases {
